@@ -25,6 +25,9 @@ def check(run: Run) -> None:
     from .c07 import persistence_scenarios
 
     persistence_scenarios(run, model, "C13.R1")
+    from ..indexscen import nextids_untouched
+
+    nextids_untouched(run, model, "C13.R1")
     run.rule("C13.R6", "redo is idempotent: every processed page is removed from the index before it is added (also pages that look new), and only reindex depends on the content of file_hash.json")
     reindex_rules(run, model, dict(order="C13.R6", ack="C13.R2", recover="C13.R6"))
     writeback_rules(run, model, "C13.R2")
